@@ -1,7 +1,7 @@
 import datetime, z3
 from vlib.runner import KaniOb
-from vlib.mirsym_run import MirOb, In, NPC, dur_total, dur_val
-from vlib.mirsym.engine import IntV, Agg
+from vlib.mirsym_run import MirOb, In, NPC, dur_total, dur_val, dur_arith_summaries, contract_obligations
+from vlib.mirsym.engine import IntV, Agg, Z, zsimp, TranslationError
 from vlib import gen_tables
 from props.c02 import is_canon
 
@@ -124,6 +124,129 @@ def mk_window(anchor, W, name, tier="quick"):
                  functions=["Epoch::maybe_from_gregorian", "is_gregorian_valid", "is_leap_year", "usual_days_per_month", "january_years", "july_years",
                             "CUMULATIVE_DAYS_FOR_MONTH(_LEAP_YEARS)", "Unit * i64", "Duration += / -= / +", "TimeScale::gregorian_epoch_offset (contract)"])
 
+# ---------------------------------------------------------------- all years at once: inductive loop invariants
+YMAX = 3_000_000   # |year| bound of the inductive obligation: keeps every intermediate duration inside +/-32768 centuries
+
+def Lz(y):
+    """number of leap years strictly before year y (proleptic Gregorian, 4/100/400 rule restated from the statement);
+    z3 `/` on Int is floor division"""
+    return (y - 1) / 4 - (y - 1) / 100 + (y - 1) / 400
+
+# The inductive obligations reason about the leap-year count through an uninterpreted function Lf constrained only by
+# instances of its defining recurrence  Lf(x+1) = Lf(x) + [x is a leap year]  and the anchor Lf(1900) = 460. Whatever is
+# proved for every such Lf holds for the real count Lz, which satisfies the recurrence for every x (checked by the solver
+# on each run, `leap_count_lemma_ok`). This keeps every query in linear arithmetic + equality (no nested divisions).
+Lf = z3.Function("Lf", z3.IntSort(), z3.IntSort())
+L1900 = 1899 // 4 - 1899 // 100 + 1899 // 400
+
+def leap_i(x):
+    return z3.If(leap(x), 1, 0)
+
+def L_step(x):
+    """lemma instance: the year x contributes one leap day exactly when it is a leap year"""
+    return Lf(x + 1) == Lf(x) + leap_i(x)
+
+L_ANCHOR = Lf(1900) == L1900
+
+_LEMMA_OK = {}
+def leap_count_lemma_ok():
+    """solver check (external portfolio, once per run): the closed form Lz satisfies the recurrence for EVERY integer x and the anchor"""
+    if "ok" not in _LEMMA_OK:
+        from vlib.mirsym_run import portfolio_check
+        x = z3.Int("x")
+        v1, _, _ = portfolio_check([], z3.Not(Lz(x + 1) == Lz(x) + leap_i(x)), [x], 120)
+        v2 = z3.simplify(Lz(z3.IntVal(1900)) == L1900)
+        _LEMMA_OK["ok"] = (v1 == "unsat") and z3.is_true(v2)
+        _LEMMA_OK["detail"] = f"recurrence: {v1}; anchor: {v2}"
+    return _LEMMA_OK["ok"]
+
+def summary_is_leap_year(eng, st, args):
+    """contract of is_leap_year, decided for every i32 by c08_is_leap_year on the real code"""
+    from vlib.mirsym.engine import BoolV, is_conc
+    y = args[0].e
+    if is_conc(y):
+        return [(True, BoolV((y % 4 == 0 and y % 100 != 0) or y % 400 == 0))]
+    return [(True, BoolV(zsimp(leap(Z(y)))))]
+
+def _inv_leap_loop(sign, accname="duration_wrt_ref"):
+    def inv(eng, entry, cur, named):
+        it0, it = entry["iter"], cur["iter"]
+        s0, e0 = Z(it0.fields[0].e), Z(it0.fields[1].e)
+        s, e = Z(it.fields[0].e), Z(it.fields[1].e)
+        d0, d = entry[accname], cur[accname]
+        return z3.And(e == e0, s >= s0, s <= e0, s >= -YMAX - 1, s <= YMAX + 1, is_canon(d),
+                      Lf(s) - Lf(s0) >= 0, Lf(s) - Lf(s0) <= s - s0,      # at most one leap day per year (inductive, via the recurrence)
+                      dur_total(d) == dur_total(d0) + sign * NPD * (Lf(s) - Lf(s0)))
+    return inv
+
+def _lemma_iter(eng, entry, cur, named):
+    return [L_step(Z(cur["iter"].fields[0].e))]
+
+def dfc(y, m, d):
+    """days from 1900-01-01 to y-m-d: 365 per year, one per leap year before y (Lf), months before m, days before d"""
+    cum = [0, 31, 59, 90, 120, 151, 181, 212, 243, 273, 304, 334]
+    e = z3.IntVal(cum[11])
+    for k in range(10, -1, -1):
+        e = z3.If(m == k + 1, cum[k], e)
+    return 365 * (y - 1900) + Lf(y) - L1900 + e + z3.If(z3.And(m > 2, leap(y)), 1, 0) + d - 1
+
+def summary_is_gregorian_valid(eng, st, args):
+    """contract of is_gregorian_valid, decided at full width by c08_validity: false on every must-reject combination,
+    true on every valid date-time, unconstrained in between (hour 24, ns 10^9, 1971-12-31T23:59:60 and the open finding)"""
+    env = dict(zip(("y", "mo", "d", "h", "mi", "s", "ns"), [Z(a.e) for a in args]))
+    v = z3.Bool(f"valid!{next(eng.fresh)}")
+    c = z3.And(z3.Implies(must_reject(env), z3.Not(v)), z3.Implies(must_accept(env), v))
+    st.pc.append(c); eng.solver.add(c)
+    from vlib.mirsym.engine import BoolV
+    return [(True, BoolV(v))]
+
+def mk_all_years(tier="quick"):
+    from vlib.mirsym.engine import LoopContract
+    base = mk_window(1900, 3, "c08_day_count_all_years", tier)
+    def pre(env):
+        if not leap_count_lemma_ok():
+            raise TranslationError("leap-count recurrence lemma not established by the solver: " + _LEMMA_OK.get("detail", ""))
+        y = env["y"]
+        # lemma instances the post-condition needs: none beyond the anchor (the loops' exits give Lf at the year itself)
+        return z3.And(y >= -YMAX, y <= YMAX, L_ANCHOR)
+    def post(env, ret, refs):
+        y, mo, d, h, mi, s, ns = fields(env)
+        if env.get("__eng") is None:
+            return base.post(env, ret, refs)     # concrete judging of native results: closed-form oracle
+        if ret.variant != "Ok":
+            return z3.Not(must_accept(env))
+        ep = ret.fields[0]
+        rd, rts = ep.fields[0], ep.fields[1]
+        count = dfc(y, mo, d) * NPD + h * 3600 * 10**9 + mi * 60 * 10**9 + s * 10**9 + ns - greg_offset_z(env["ts"])
+        return z3.And(z3.Not(must_reject(env)), rts.discr == env["ts"], is_canon(rd),
+                      z3.Implies(z3.And(s < 60, must_accept(env)), dur_total(rd) == count))
+    def probes(vals, rnd, i):
+        base.probes(vals, rnd, i)
+        vals["y"] = rnd.choice([1, 4, 100, 400, 1582, 1600, 1899, 1900, 1901, 1972, 2000, 2016, 2100, 2101, 2400, 3000, -1, 0, -400, rnd.randint(-600, 4400)])
+    def on_fail(models):
+        anchors = set()
+        for m in models:
+            for k, v in (m or {}).items():
+                if k.startswith("h_iter") and abs(v) <= 40000:
+                    anchors.add(v)
+        if not anchors:
+            anchors = {1900, 2100, 1700}
+        return [mk_window(a, 2, f"c08_day_count_witness_{a}".replace("-", "m"), tier) for a in sorted(anchors)[:4]]
+    ob = MirOb("c08_day_count_all_years", base.fn, base.inputs, post,
+               f"maybe_from_gregorian for EVERY year in [-{YMAX}, {YMAX}] at once: the two leap-day loops are discharged by inductive invariants "
+               "(one arbitrary iteration preserves `accumulated = entry + 86400 s x (leap years in [start, y))`, so every iteration count is covered); "
+               "result = exact day count x 86400 s + time of day - the scale's civil zero, Err exactly for invalid fields; all nine scales",
+               "maybe_from_gregorian", pre=pre, probes=probes, ret_shape="Result<Epoch>", min_paths=8, loop_bound=8, tier=tier, timeout_ms=120000, nprobe=40, feas_timeout_ms=1500,
+               summaries=dict(dur_arith_summaries(), **{"::gregorian_epoch_offset": summary_gregorian_epoch_offset, "is_gregorian_valid": summary_is_gregorian_valid, "is_leap_year": summary_is_leap_year}),
+               summaries_concrete={"::gregorian_epoch_offset": summary_gregorian_epoch_offset},
+               loop_contracts=[LoopContract("::maybe_from_gregorian", 0, ["iter", "duration_wrt_ref"], _inv_leap_loop(+1), "leap days after 1900", lemmas=_lemma_iter),
+                               LoopContract("::maybe_from_gregorian", 1, ["iter", "duration_wrt_ref"], _inv_leap_loop(-1), "leap days before 1900", lemmas=_lemma_iter)],
+               on_loop_failure=on_fail,
+               bounds=f"year in [-{YMAX}, {YMAX}] (no unrolling: loop invariants, one inductive step each); month, day, hour, minute, second, nanosecond, time scale fully symbolic",
+               outside="termination of the loops is not part of the inductive argument (both are `for` loops over a finite range); |year| > 3 000 000 saturates the Duration range",
+               functions=base.functions + ["loop invariant: accumulated leap days = closed-form count of leap years"])
+    return ob
+
 def obligations(tier, seed):
     ins = [In("y", "i32"), In("mo", "u8"), In("d", "u8"), In("h", "u8"), In("mi", "u8"), In("s", "u8"), In("ns", "u32")]
     def probes(vals, rnd, i):
@@ -140,6 +263,10 @@ def obligations(tier, seed):
               "is_gregorian_valid", probes=probes, ret_shape="bool", min_paths=4,
               bounds="full width: every i32 year x u8 month, day, hour, minute, second x u32 nanosecond",
               functions=["is_gregorian_valid", "usual_days_per_month", "is_leap_year", "january_years", "july_years"]),
+        MirOb("c08_is_leap_year", "is_leap_year", [In("y", "i32")], lambda env, ret, refs: ret.e == leap(env["y"]),
+              "is_leap_year(y) is the 4/100/400 rule for every i32 year (contract used by the inductive obligations)", "is_leap_year", ret_shape="bool", min_paths=2,
+              bounds="every i32 year", functions=["is_leap_year"]),
+        mk_all_years(),
         mk_window(1900, 12, "c08_day_count_1900"),
         KaniOb("c08", "c08_gregorian_offsets", "contract used by E2: gregorian_epoch_offset is the civil zero of each of the nine scales (00:00:00 of the reference date; 12:00:00 on 2000-01-01 for ET/TDB)",
                ["TimeScale::gregorian_epoch_offset", "TimeScale::prime_epoch_offset", "Duration::subdivision", "Duration::decompose (f64)"], "nine scales, concrete per scale", tq=900),
